@@ -86,17 +86,19 @@ def writePledge (c : Cfg) (s : Store) (signer payee tx ts : Nat) : Outcome :=
     else if nodes.any (fun n => n.signer == signer || n.tx == tx) then .reject
     else .ok (put s ⟨ts, signer, payee, tx, .pledging⟩)
 
-/-- the common guard of `writeNodeAccept` (non-genesis) and `writeNodeCancel` -/
+/-- the common guard of `writeNodeAccept` (non-genesis) and `writeNodeCancel` on the list read -/
+def pledgingGuardOn (nodes : List Rec) (signer payee : Nat) : Option Bool :=
+  match nodes.getLast? with
+  | none => none                       -- nodes[len(nodes)-1] on an empty slice
+  | some last =>
+    if last.state != .pledging then some false
+    else if last.signer != signer || last.payee != payee then some false
+    else some true
+
 def pledgingGuard (c : Cfg) (s : Store) (signer payee ts : Nat) : Option Bool :=
   match readAll s (offset ts c.acceptPeriod) true with
   | none => none
-  | some nodes =>
-    match nodes.getLast? with
-    | none => none                       -- nodes[len(nodes)-1] on an empty slice
-    | some last =>
-      if last.state != .pledging then some false
-      else if last.signer != signer || last.payee != payee then some false
-      else some true
+  | some nodes => pledgingGuardOn nodes signer payee
 
 /-- `writeNodeCancel` -/
 def writeCancel (c : Cfg) (s : Store) (signer payee tx ts : Nat) : Outcome :=
@@ -122,22 +124,25 @@ def lastOf (signer : Nat) : List Rec → Option Rec
     | some x => some x
     | none => if r.signer == signer then some r else none
 
+/-- the checks of `writeNodeRemove` on the list read; `new` is the store after the write -/
+def removeOn (nodes : List Rec) (signer payee : Nat) (new : Store) : Outcome :=
+  match nodes.getLast? with
+  | none => .panic
+  | some last =>
+    if !(isSettled last.state) then .reject
+    else
+      match lastOf signer nodes with
+      | none => .reject
+      | some node =>
+        if node.payee != payee then .reject
+        else if node.state != .accepted then .reject
+        else .ok new
+
 /-- `writeNodeRemove` -/
 def writeRemove (c : Cfg) (s : Store) (signer payee tx ts : Nat) : Outcome :=
   match readAll s (offset ts c.acceptPeriod) true with
   | none => .panic
-  | some nodes =>
-    match nodes.getLast? with
-    | none => .panic
-    | some last =>
-      if !(isSettled last.state) then .reject
-      else
-        match lastOf signer nodes with
-        | none => .reject
-        | some node =>
-          if node.payee != payee then .reject
-          else if node.state != .accepted then .reject
-          else .ok (put s ⟨ts, signer, payee, tx, .removed⟩)
+  | some nodes => removeOn nodes signer payee (put s ⟨ts, signer, payee, tx, .removed⟩)
 
 inductive OpKind where
   | pledge | accept | cancel | remove | genesis
